@@ -168,6 +168,7 @@ type vrcStep struct {
 	cancel  bool      // the transaction is cancelled instead of confirmed: everything is as before it
 	with    []vrcStep // further intents of the same transaction
 	invalid bool      // the configuration that would result violates the schema: the step has to be rejected, nothing changes
+	orphan  bool      // with json == "": the intent is given up with the orphan flag (removed from the intended store only, the device keeps its values)
 }
 
 type vrcLive struct {
@@ -241,6 +242,10 @@ func TestVerifReplayConverge(t *testing.T) {
 		"an entry with a mandatory leaf dropped by a new revision, a sibling entry stays": {{name: "A", prio: 10, json: `{"doublekey":[{"key1":"k1","key2":"k2","mandato":"m"},{"key1":"k3","key2":"k4","mandato":"n"}]}`}, {name: "A", prio: 10, json: `{"doublekey":[{"key1":"k1","key2":"k2","mandato":"m"}]}`}},
 		"ruling intent deleted, the other case was shadowed from the start":               {{name: "O1", prio: 5, json: case1}, {name: "O2", prio: 10, json: case2}, {name: "O1", prio: 5, json: ""}},
 		"ruling intent weakened below the holder of the other case":                       {{name: "O1", prio: 5, json: case1}, {name: "O2", prio: 10, json: case2}, {name: "O1", prio: 20, json: case1}},
+		"unchanged intent re-applied next to a neighbour of the same priority":            {{name: "A", prio: 10, json: `{"patterntest":"hallo 0a"}`}, {name: "B", prio: 10, json: `{"patterntest":"hallo 0b"}`}, {name: "A", prio: 10, json: `{"patterntest":"hallo 0a"}`}},
+		"ruling intent orphaned":                                                          {{name: "A", prio: 10, json: ifA}, {name: "B", prio: 20, json: ifTwo}, {name: "A", prio: 10, json: "", orphan: true}},
+		"shadowed intent orphaned":                                                        {{name: "A", prio: 30, json: ifA}, {name: "B", prio: 20, json: ifTwo}, {name: "A", prio: 30, json: "", orphan: true}},
+		"the only intent orphaned":                                                        {{name: "A", prio: 10, json: ifTwo}, {name: "A", prio: 10, json: "", orphan: true}},
 		"deleted intent cancelled":                                                        {{name: "A", prio: 10, json: ifTwo}, {name: "A", prio: 10, json: "", cancel: true}},
 	}
 	// several intents in one transaction: what the intended store holds of any of them is a former version. The order in
@@ -278,6 +283,7 @@ func TestVerifReplayConverge(t *testing.T) {
 		cc := mockcacheclient.NewMockClient(ctrl)
 		dc.wire(cc)
 		device := map[string]string{}
+		orphaned := false
 		sbi := mocktarget.NewMockTarget(ctrl)
 		sbi.EXPECT().Set(gomock.Any(), gomock.Any()).AnyTimes().DoAndReturn(
 			func(ctx context.Context, source target.TargetSource) (*sdcpb.SetDataResponse, error) {
@@ -331,6 +337,10 @@ func TestVerifReplayConverge(t *testing.T) {
 				req := &sdcpb.TransactionIntent{Intent: x.name, Priority: x.prio}
 				if x.json == "" {
 					req.Delete = true
+					req.Orphan = x.orphan
+					if x.orphan {
+						orphaned = true
+					}
 				} else {
 					req.Update = []*sdcpb.Update{{Path: &sdcpb.Path{}, Value: &sdcpb.TypedValue{Value: &sdcpb.TypedValue_JsonVal{JsonVal: []byte(x.json)}}}}
 				}
@@ -421,6 +431,9 @@ func TestVerifReplayConverge(t *testing.T) {
 			// C09
 			if unchanged && (len(rsp.GetUpdate()) > 0 || len(rsp.GetDelete()) > 0) {
 				clause := "quiet"
+				if hname == "unchanged intent re-applied next to a neighbour of the same priority" {
+					clause = "quiet_among_equal_priorities.known" // recorded finding: the intent of the transaction wins a tie, so two intents of one priority take turns
+				}
 				if hname == "unchanged intent holding the ruling case re-applied" && len(rsp.GetUpdate()) == 0 && len(rsp.GetDelete()) == 1 &&
 					strings.Join(utils.ToStrings(rsp.GetDelete()[0], false, false), "/") == "choices/case2" {
 					clause += ".known" // recorded finding: the case another intent holds is deleted again (it is not on the device)
@@ -432,12 +445,23 @@ func TestVerifReplayConverge(t *testing.T) {
 			// C01: expected device
 			want := map[string]string{}
 			best := map[string]int32{}
+			tied := map[string]map[string]bool{} // path -> the values of the intents that share the best priority
 			for _, lv := range live {
 				for p, v := range lv.leaves {
 					if bp, ok := best[p]; !ok || lv.prio < bp {
 						best[p] = lv.prio
 						want[p] = v
+						tied[p] = map[string]bool{v: true}
+					} else if lv.prio == bp {
+						tied[p][v] = true
 					}
+				}
+			}
+			// the statement names the intent with the lowest priority value: among intents that share it every one of their
+			// values is accepted
+			for p, vs := range tied {
+				if g, ok := device[p]; ok && vs[g] {
+					want[p] = g
 				}
 			}
 			// the choice below /choices: only the case with the best contribution
@@ -491,7 +515,9 @@ func TestVerifReplayConverge(t *testing.T) {
 				}
 			}
 			sort.Strings(diffs)
-			if len(diffs) > 0 {
+			// (what an orphaned intent leaves on the device is no longer described by the live intents: the device is not
+			// compared from then on, the intended store still is)
+			if len(diffs) > 0 && !orphaned {
 				clause, fn := "device_holds_the_merge", fnLL
 				if (hname == "ruling intent with the other case is deleted" || hname == "ruling intent deleted, the other case was shadowed from the start") && len(diffs) == 1 && strings.HasPrefix(diffs[0], "missing /choices/case2") {
 					clause += ".known" // recorded finding: the other intents' nodes of a case that becomes active are not loaded into the tree
@@ -534,6 +560,11 @@ func TestVerifReplayConverge(t *testing.T) {
 			if strings.Join(wantI, "; ") != strings.Join(gotI, "; ") {
 				fmt.Printf("REPLAY-FAIL fn=%s clause=children_are_always_visited input=%s why=intended store holds [%s], the live intents are [%s]\n", "(*tree.sharedEntryAttributes).GetByOwner", in, strings.Join(gotI, "; "), strings.Join(wantI, "; "))
 				fmt.Printf("REPLAY-FAIL fn=%s clause=intended_store_is_the_live_intents input=%s why=intended store holds [%s], the live intents are [%s]\n", fnLL, in, strings.Join(gotI, "; "), strings.Join(wantI, "; "))
+				if orphaned {
+					for _, f := range []string{"(*tree.LeafEntry).MarkDelete", "(*tree.sharedEntryAttributes).markOwnerDelete"} {
+						fmt.Printf("REPLAY-FAIL fn=%s clause=orphan_flag input=%s why=intended store holds [%s], the live intents are [%s]\n", f, in, strings.Join(gotI, "; "), strings.Join(wantI, "; "))
+					}
+				}
 			}
 		}
 	}
